@@ -1,4 +1,4 @@
-\* TODO-KNOWN-FINDING C42-recheck-gap-after-overlap: searches the model for states violating the
+\* KNOWN-FINDING (open, known_findings.json) C42-recheck-gap-after-overlap: searches the model for states violating the
 \* strict contiguity property and prints the behaviours leading there (tag NGAP).
 SPECIFICATION MCSpec
 CONSTANTS Accts = {"a1"}
